@@ -293,6 +293,24 @@ func ownedParams(c *Ctx) []ownedParam {
 				}
 			}
 		}
+		// methods that are handed a stream (iter.startReader(ctx, s))
+		var meths []*ssa.Function
+		for _, fn := range c.Funcs {
+			if fn.Pkg == sp && fn.Parent() == nil && fn.Signature.Recv() != nil && fn.Blocks != nil && fn.Synthetic == "" {
+				meths = append(meths, fn)
+			}
+		}
+		sort.Slice(meths, func(i, j int) bool { return c.nameOf(meths[i]) < c.nameOf(meths[j]) })
+		for _, fn := range meths {
+			for pi, p := range fn.Params {
+				if pi == 0 {
+					continue // the receiver is the object itself, not something handed over
+				}
+				if k := streamKind(p.Type()); k != 0 && !isBorrower(c, fn, p) {
+					out = append(out, ownedParam{fn, c.nameOf(fn), p, k})
+				}
+			}
+		}
 	}
 	return out
 }
@@ -617,11 +635,18 @@ func ruleOwnGoroutine(c *Ctx, r *R, op ownedParam, key string, uses []ownUse) {
 		}
 	}
 	// the returned stream's Close must cancel and wait
-	ret := returnedStruct(op.fn)
-	if ret == nil {
+	var wrapT types.Type
+	if ret := returnedStruct(op.fn); ret != nil {
+		wrapT = ret.Type()
+	} else if op.fn.Signature.Recv() != nil && len(op.fn.Params) > 0 {
+		// a method of the wrapper itself starts the goroutine (iter.startReader(ctx, s)): the wrapper is the receiver
+		wrapT = op.fn.Params[0].Type()
+	}
+	if wrapT == nil {
 		r.violated(key, op.fn.Pos(), "cannot find the returned wrapper whose Close waits for the goroutine")
 		return
 	}
+	ret := typedNil{wrapT}
 	closeFn := c.fn(relOfPkg(op.fn.Pkg) + "." + typeShort(ret.Type()) + ".Close")
 	if closeFn == nil {
 		r.violated(key, op.fn.Pos(), "returned type "+typeShort(ret.Type())+" has no Close method in the package")
@@ -907,3 +932,7 @@ func isBorrower(c *Ctx, fn *ssa.Function, p *ssa.Parameter) bool {
 	}
 	return len(callCommonsOf(c, fn)) > 0
 }
+
+type typedNil struct{ t types.Type }
+
+func (t typedNil) Type() types.Type { return t.t }
